@@ -183,12 +183,12 @@ static double peRateFD(const Rig& g, const Force& f, const State& s, double h = 
 static std::string gOrig;   // the original I line in replay mode
 static bool gDissOnly = false;     // replay of a `diss*` record: print only that record
 static double c12Lines(const std::string& key, const Rig& g, const Force& f, const State& s, const Contribution& c,
-                     bool reportsPE, bool hasDamping, bool pureDamper, double scale) {
+                     bool reportsPE, bool hasDamping, bool pureDamper, double scale, double h = 1e-6) {
     double P = powerOf(g, s, c);
     double tol = 1e-6 * std::max(1.0, scale);
     double diss = 0;
     if (reportsPE) {
-        double rate = peRateFD(g, f, s);
+        double rate = peRateFD(g, f, s, h);
         diss = P + rate;                 // power = -dPE/dt + diss
         if (gDissOnly) return diss;
         vh::P("dissipation_nonpositive", key + ".diss_le_0", diss, tol);
@@ -915,6 +915,56 @@ static void elemSmooth(Src& c, int scenario) {
 }
 
 // ---------------------------------------------------------------- ExponentialSpringForce (normal force)
+// ExponentialSpringForce friction with a displaced elastic anchor (predicates only): the anchor is reset at one pose, the
+// body is then moved tangentially (friction spring stretched, possibly beyond the limit), velocities are random; then
+// the auto-update state (anchor, sliding) is swapped in and the element re-evaluated.
+static void elemExpAnchor(Src& c) {
+    vh::Rng& r = *c.rng;
+    double d1 = r.range(0.1, 2), d2 = r.range(200, 1500), cz = r.range(0, 2);
+    double muk = r.range(0.05, 0.6), mus = muk + r.range(0, 0.4);
+    Vec3 station = randVec(r, 0.3);
+    Transform XP(randRot(r), randVec(r, 1));
+    std::unique_ptr<Rig> g(new Rig()); vh::Rng local(6); g->freeBodies(local, 1);
+    ExponentialSpringParameters prm; prm.setShapeParameters(0.0065905, d1, d2); prm.setNormalViscosity(cz);
+    prm.setInitialMuStatic(mus); prm.setInitialMuKinetic(muk);
+    ExponentialSpringForce f(g->forces, XP, g->body[1], station, prm);
+    g->topo();
+    double pz = r.range(-0.004, 0.004);
+    Vec3 pP(r.range(-1, 1), r.range(-1, 1), pz);
+    Rotation Rb = randRot(r);
+    auto place = [&](const Vec3& pInPlane, const SpatialVec& V) {
+        std::vector<Transform> XX = {Transform(), Transform(Rb, XP * pInPlane - Rb * station)}; std::vector<SpatialVec> VV = {SpatialVec(Vec3(0), Vec3(0)), V};
+        g->fit(XX, VV); };
+    place(pP, SpatialVec(Vec3(0), Vec3(0)));
+    f.resetAnchorPoint(g->s);
+    double delta = std::pow(10.0, r.range(-6, -2.3));            // 1e-6 .. 5e-3 m: below and beyond the friction limit
+    Vec3 shift(delta * std::cos(r.range(0, 6.28)), delta * std::sin(r.range(0, 6.28)), 0);
+    place(pP + shift, SpatialVec(randVec(r, 0.5), randVec(r, 0.3)));
+    std::printf("I pc 300\n"); vh::O("pc").d(0.0).emit();
+    for (int pass = 0; pass < 2; ++pass) {
+        g->sys.realize(g->s, Stage::Dynamics);
+        double fz = f.getNormalForce(g->s, false)[2], lim = f.getFrictionForceLimit(g->s);
+        Vec3 fric = f.getFrictionForce(g->s, false), fe = f.getFrictionForceElasticPart(g->s, false), fd = f.getFrictionForceDampingPart(g->s, false);
+        Vec3 vP = f.getStationVelocity(g->s, false); Vec3 vxy(vP[0], vP[1], 0);
+        Vec3 pS = f.getStationPosition(g->s, false), p0 = f.getAnchorPointPosition(g->s, false); Vec3 rxy(pS[0] - p0[0], pS[1] - p0[1], 0);
+        double sc = std::max(1.0, std::max(fz, fric.norm()));
+        const std::string k = std::string("ExponentialSpringForce.anchor") + (pass ? ".after_update" : "");
+        vh::P("friction_le_limit", k + ".friction_le_limit", fric.norm() - lim, 1e-9 * sc);
+        vh::P("friction_limit_is_mu_fz", k + ".friction_limit", std::abs(lim - f.getMu(g->s) * fz), 1e-10 * sc);
+        vh::P("friction_in_plane", k + ".friction_in_plane", std::abs(fric[2]) + std::abs(fe[2]) + std::abs(fd[2]), 0);
+        vh::P("friction_is_elastic_plus_damping", k + ".decomposition", (fric - fe - fd).norm(), 1e-10 * sc);
+        vh::P("damping_part_opposes_slip", k + ".damping_opposes_slip", dot(fd, vxy), 1e-10 * sc);
+        vh::P("elastic_part_opposes_displacement", k + ".elastic_opposes_displacement", dot(fe, rxy), 1e-10 * sc);
+        vh::P("mu_between_kinetic_and_static", k + ".mu_range", std::max(muk - f.getMu(g->s), f.getMu(g->s) - mus), 1e-12);
+        if (pass == 0) {
+            vh::D(std::string("expAnchor") + (fric.norm() > 0.999999 * lim ? ".at_limit" : ".inside_limit") + (fe.norm() > 0 ? ".elastic" : ""));
+            g->sys.realize(g->s, Stage::Acceleration);
+            g->s.autoUpdateDiscreteVariables();          // anchor point and sliding state take their cached values
+            g->s.invalidateAllCacheAtOrAbove(Stage::Position);
+        }
+    }
+}
+
 static void elemExp(Src& c, bool frictionless = false) {
     double d0 = c.val(c.replay ? 0 : c.rng->range(-0.01, 0.02)), d1 = c.val(c.replay ? 0 : c.rng->range(0.1, 2)), d2 = c.val(c.replay ? 0 : c.rng->range(200, 1500));
     double cz = c.val(c.replay ? 0 : (c.rng->below(4) == 0 ? 0.0 : c.rng->range(0.1, 2)));
@@ -959,7 +1009,8 @@ static void elemExp(Src& c, bool frictionless = false) {
         // calculation when the normal force is capped"): separate key for that input class
         Vec3 vB0 = g->body[1].findStationVelocityInGround(g->s, station);
         double sc = (std::abs(fz) + std::abs(fzE)) * (vB0.norm() + 1) + std::abs(k.pe);
-        c12Lines(fz == maxF ? "ExponentialSpringForce.capped" : "ExponentialSpringForce", *g, f, g->s, k, true, cz != 0, false, sc);
+        // h = 1e-7: the energy varies like exp(-d2*pz) with d2 up to 1500/m, truncation error (d2*v*h)^2/6 must stay < 1e-6
+        c12Lines(fz == maxF ? "ExponentialSpringForce.capped" : "ExponentialSpringForce", *g, f, g->s, k, true, cz != 0, false, sc, 1e-7);
         vh::P("frictionless_no_tangential_force", "ExponentialSpringForce.frictionless.tangential", f.getFrictionForce(g->s).norm(), 0);
     }
     if (wantC13()) thirdLaw("ExponentialSpringForce", *g, g->s, k.F);
@@ -1261,43 +1312,73 @@ static void elemCable(Src& c) {
 // contact force WITH a moment about the contact point, the part of realizeSubsystemDynamicsImpl that Hertz never exercises.
 static void elemCompliantOther(Src& c, long i) {
     vh::Rng& r = *c.rng;
-    int kindS = (int)(i % 2);                     // 0 mesh sphere on a half space, 1 brick on a half space
+    int kindS = (int)(i % 4);                     // 0 mesh sphere / half space, 1 brick / half space, 2 ellipsoid / half space (Hertz elliptical), 3 mesh sphere / sphere
+    bool separated = wantC37() && ((i / 4) % 4 == 3);      // guaranteed gap: nothing may be generated
     std::unique_ptr<Rig> g(new Rig());
     ContactTrackerSubsystem tracker(g->sys);
     CompliantContactSubsystem compliant(g->sys, tracker);
+    double vtr = r.coin() ? 0.01 : r.range(0.005, 0.3); compliant.setTransitionVelocity(vtr);
     Transform Xhalf(randRot(r), randVec(r, 1));
     Mat5 mh = drawMat(c), mb = drawMat(c);
-    g->matter.Ground().updBody().addContactSurface(Xhalf, ContactSurface(ContactGeometry::HalfSpace(), ContactMaterial(mh.k, mh.c, mh.us, mh.ud, mh.uv)));
+    double rG = r.range(0.4, 1.0);
+    if (kindS == 3) g->matter.Ground().updBody().addContactSurface(Transform(Xhalf.p()), ContactSurface(ContactGeometry::Sphere(rG), ContactMaterial(mh.k, mh.c, mh.us, mh.ud, mh.uv)));
+    else g->matter.Ground().updBody().addContactSurface(Xhalf, ContactSurface(ContactGeometry::HalfSpace(), ContactMaterial(mh.k, mh.c, mh.us, mh.ud, mh.uv)));
     Body::Rigid b = Rig::randBody(r);
     double radius = r.range(0.3, 1.0); Vec3 hdim(r.range(0.2, 0.8), r.range(0.2, 0.8), r.range(0.2, 0.8));
     Transform XBS(randRot(r), randVec(r, 0.3));
-    if (kindS == 0) b.addContactSurface(XBS, ContactSurface(ContactGeometry::TriangleMesh(PolygonalMesh::createSphereMesh(radius, 1 + r.below(2))),
+    if (kindS == 0 || kindS == 3) b.addContactSurface(XBS, ContactSurface(ContactGeometry::TriangleMesh(PolygonalMesh::createSphereMesh(radius, 1 + r.below(2))),
                                                             ContactMaterial(mb.k, mb.c, mb.us, mb.ud, mb.uv), r.range(0.05, 0.3)));
-    else b.addContactSurface(XBS, ContactSurface(ContactGeometry::Brick(hdim), ContactMaterial(mb.k, mb.c, mb.us, mb.ud, mb.uv)));
+    else if (kindS == 1) b.addContactSurface(XBS, ContactSurface(ContactGeometry::Brick(hdim), ContactMaterial(mb.k, mb.c, mb.us, mb.ud, mb.uv)));
+    else b.addContactSurface(XBS, ContactSurface(ContactGeometry::Ellipsoid(hdim), ContactMaterial(mb.k, mb.c, mb.us, mb.ud, mb.uv)));
     g->body.push_back(MobilizedBody::Free(g->matter.Ground(), Transform(), b, Transform())); g->kind.push_back(1);
     g->topo();
-    Vec3 nOut = -(Xhalf.R() * Vec3(1, 0, 0));
     Rotation Rb = randRot(r);
-    double reach = kindS == 0 ? radius : std::min(hdim[0], std::min(hdim[1], hdim[2]));
-    double depth = r.range(0.05, 0.3) * reach;
-    double ext = kindS == 0 ? radius : 0;
-    if (kindS == 1) {   // support distance of the brick along -nOut
-        Vec3 nB = ~(Rb * XBS.R()) * (-nOut);
-        ext = std::abs(nB[0]) * hdim[0] + std::abs(nB[1]) * hdim[1] + std::abs(nB[2]) * hdim[2];
-    }
-    Vec3 centre = Xhalf.p() + (ext - depth) * nOut + r.range(-1, 1) * (Xhalf.R() * Vec3(0, 1, 0));
+    Vec3 nOut = kindS == 3 ? Vec3(UnitVec3(randVec(r, 1) + Vec3(0.01, 0.02, 0.03))) : Vec3(-(Xhalf.R() * Vec3(1, 0, 0)));
+    double reach = (kindS == 0 || kindS == 3) ? radius : std::min(hdim[0], std::min(hdim[1], hdim[2]));
+    double depth = separated ? -r.range(0.01, 0.2) : r.range(0.05, 0.3) * reach;
+    double ext = radius;
+    Vec3 nB = ~(Rb * XBS.R()) * (-nOut);          // direction towards the half space in the surface frame
+    if (kindS == 1) ext = std::abs(nB[0]) * hdim[0] + std::abs(nB[1]) * hdim[1] + std::abs(nB[2]) * hdim[2];
+    if (kindS == 2) ext = std::sqrt(square(nB[0] * hdim[0]) + square(nB[1] * hdim[1]) + square(nB[2] * hdim[2]));   // support function of the ellipsoid
+    Vec3 centre = kindS == 3 ? Xhalf.p() + (rG + radius - depth) * nOut
+                             : Xhalf.p() + (ext - depth) * nOut + r.range(-1, 1) * (Xhalf.R() * Vec3(0, 1, 0));
     std::vector<Transform> X = {Transform(), Transform(Rb, centre - Rb * XBS.p())};
-    std::vector<SpatialVec> V = {SpatialVec(Vec3(0), Vec3(0)), SpatialVec(randVec(r, 1.5), randVec(r, 0.6))};
+    // HertzElliptical: the Hertz stiffness depends on the local curvatures at the contact point; they change when the
+    // ellipsoid rotates ("rolling"), which the fixed-geometry reading of C12 excludes -> own class and key
+    bool rolling = !(kindS == 2 && wantC12() && ((i / 4) % 2 == 0));
+    std::vector<SpatialVec> V = {SpatialVec(Vec3(0), Vec3(0)), SpatialVec(rolling ? randVec(r, 1.5) : Vec3(0), randVec(r, 0.6))};
     g->fit(X, V);
     g->sys.realize(g->s, Stage::Dynamics);
     std::printf("I pc %d\n", 200 + kindS); vh::O("pc").d(0.0).emit();
     int nf = compliant.getNumContactForces(g->s);
-    double mom = 0, loss = 0; for (int k = 0; k < nf; ++k) { mom = std::max(mom, compliant.getContactForce(g->s, k).getForceOnSurface2()[0].norm()); loss += compliant.getContactForce(g->s, k).getPowerDissipation(); }
-    const std::string key = kindS == 0 ? "CompliantContactSubsystem.ElasticFoundation" : "CompliantContactSubsystem.BrickHalfSpace";
-    vh::D(std::string("compliant.") + (kindS == 0 ? "mesh" : "brick") + (nf == 0 ? ".nocontact" : mom > 0 ? ".with_moment" : ".pure_force"));
+    double mom = 0, loss = 0, minLoss = 0; Vec3 Ftot(0);
+    for (int k = 0; k < nf; ++k) { const ContactForce& cf = compliant.getContactForce(g->s, k);
+        mom = std::max(mom, cf.getForceOnSurface2()[0].norm()); loss += cf.getPowerDissipation(); minLoss = std::min(minLoss, cf.getPowerDissipation()); Ftot += cf.getForceOnSurface2()[1]; }
+    static const char* names[] = {"ElasticFoundation", "BrickHalfSpace", "HertzElliptical", "ElasticFoundationSphere"};
+    static const char* tags[] = {"mesh", "brick", "ellipsoid", "meshsphere"};
+    const std::string key = std::string("CompliantContactSubsystem.") + names[kindS] + ((kindS == 2 && wantC12() && rolling) ? ".rolling" : "");
+    vh::D(std::string("compliant.") + tags[kindS] + ((kindS == 2 && wantC12()) ? (rolling ? ".rolling" : ".translating") : "") + (separated ? ".separated" : nf == 0 ? ".nocontact" : mom > 0 ? ".with_moment" : ".pure_force"));
     const Vector_<SpatialVec>& F = g->sys.getRigidBodyForces(g->s, Stage::Dynamics);
     if (wantC13()) thirdLaw(key, *g, g->s, F);
     if (wantC12()) c12SystemLines(key, *g, g->s, mb.c != 0 || mh.c != 0 || mb.us != 0 || mh.us != 0 || mb.ud != 0 || mb.uv != 0 || mh.ud != 0 || mh.uv != 0, loss);
+    if (!wantC37()) return;
+    double Fb = F[1][1].norm() + F[1][0].norm();
+    if (separated) { vh::P("vanishes_without_penetration", key + ".no_penetration", Fb + std::abs(g->sys.calcPotentialEnergy(g->s)), 0); return; }
+    double sc = std::max(1.0, F[1][1].norm());
+    // the body is surface 2 of every contact here? not necessarily: use the system-level force on the moving body
+    vh::P("normal_nonattractive", key + ".normal_nonattractive", -dot(F[1][1], nOut), 1e-9 * sc);
+    vh::P("dissipation_nonnegative", key + ".power_loss_nonneg", -minLoss, 1e-12 * sc);
+    vh::P("pe_nonnegative", key + ".pe_nonneg", -g->sys.calcPotentialEnergy(g->s), 0);
+    if (kindS == 2 && nf == 1) {
+        // Hertz elliptical: friction bounded by the static coefficient + viscous term, acting against the slip at the contact point
+        const ContactForce& cf = compliant.getContactForce(g->s, 0);
+        Vec3 cp = cf.getContactPoint();
+        Vec3 vB = g->body[1].findStationVelocityInGround(g->s, g->body[1].findStationAtGroundPoint(g->s, cp));
+        Vec3 vt = vB - dot(vB, nOut) * nOut;
+        auto comb2 = [](double a, double bb) { double u = 2 * a * bb; return u != 0 ? u / (a + bb) : u; };
+        contactPredicates(key, nOut, F[1][1], vB, comb2(mh.us, mb.us) + comb2(mh.uv, mb.uv) * vt.norm(), false);
+        vh::P("pure_force", key + ".no_moment", cf.getForceOnSurface2()[0].norm(), 0);
+    }
 }
 
 static bool runContact(const std::string& fn, Src& c, bool degenerate) {
@@ -1318,8 +1399,10 @@ static bool runContact(const std::string& fn, Src& c, bool degenerate) {
 }
 static bool runContactMode(const std::string& mode, long i, Src& c) {
     if (mode == "c37") {
-        switch (i % 9) {
+        switch (i % 12) {
             case 8: elemEF(c); break;
+            case 9: case 10: elemCompliantOther(c, 2 * (i / 12) + (i % 12 - 9)); break;
+            case 11: elemExpAnchor(c); break;
             case 0: case 1: elemHC(c, 0); break;
             case 2: elemHC(c, 2); break;
             case 3: elemSmooth(c, 0); break;
